@@ -1,4 +1,4 @@
-/* configure-style probe (run.py): does struct cat_object still have the fields the structural invariants of common.c look at?
+/* configure-style probe (run.py): does struct cat_object still have the fields the structural invariants of common.c (and the coverage accounting / raw object comparisons of engine.c, chk_C12.c, chk_C16.c) look at?
  * If this file does not compile, the harness is built with -DVERIF_NO_OBJECT_INVARIANTS: a tree that renamed or removed one of these
  * fields must not make every check fail to build. */
 #include "cat.h"
@@ -7,5 +7,5 @@ int probe(struct cat_object *o)
         struct cat_unsolicited_fsm *u = &o->unsolicited_fsm;
         return (o->desc != 0) + (o->io != 0) + (int)o->commands_num + (int)o->state + (o->cmd != 0) + (u->cmd != 0)
                + (int)u->unsolicited_cmd_buffer_head + (int)u->unsolicited_cmd_buffer_tail + (int)u->unsolicited_cmd_buffer_items_count
-               + (u->unsolicited_cmd_buffer[0].cmd != 0) + (int)u->unsolicited_cmd_buffer[0].type;
+               + (u->unsolicited_cmd_buffer[0].cmd != 0) + (int)u->unsolicited_cmd_buffer[0].type + (int)u->state + (int)o->current_char;
 }
